@@ -15,6 +15,7 @@ import (
 	_ "verifsim/worlds/stateworld"
 	_ "verifsim/worlds/votedbworld"
 	_ "verifsim/worlds/networld"
+	_ "verifsim/worlds/trieworld"
 	_ "verifsim/worlds/dlqworld"
 	_ "verifsim/worlds/versionworld"
 )
